@@ -256,6 +256,15 @@ Definition spec_matches (f : cformat) (t : texture) (ox oy : nat) (sp : wspecs) 
   into_option (set_soft_if_missing (s_has sp) true) = Some true /\
   opt_nat (into_option (s_ox sp)) = ox /\ opt_nat (into_option (s_oy sp)) = oy.
 
+(* within the pixel bound of fix d8a7ff5 extraction is produce_image *)
+Lemma extract_image_within bound (T0 : pixtable) t ox oy im :
+  over_bound bound ox oy t = false -> produce_image T0 ox oy t = Ok im -> extract_image bound T0 ox oy t = Ok im.
+Proof.
+  intros Hb Hp. unfold extract_image. rewrite Hb. unfold produce_image in *.
+  destruct (format_of_num T0 (t_fmt t)) as [f|]; [|discriminate].
+  destruct (negb (Nat.eqb (length (t_data t)) (bpp_nat T0 f * t_w t * t_h t))); [discriminate | exact Hp].
+Qed.
+
 Section Png.
   Variable pngfile : Type.
   Variable png_enc : image -> pngfile.
